@@ -572,6 +572,25 @@ def _g_cms_frombytes(tier, rnd):
             yield {"self": None, "args": {"b": {"__bytes__": blob.hex()}, "hash_function": None}}
 
 
+def _cms_sub_blobs(rnd, extra):
+    import struct
+    for w in (1, 2, 3):
+        for d in (1, 2):
+            cells = [rnd.randrange(-5, 50) for _ in range(w * d)]
+            blob = struct.pack(f"{w * d}i", *cells) + struct.pack("IIq", w, d, rnd.randrange(0, 1000))
+            yield {"self": None, "args": {"b": {"__bytes__": blob.hex()}, extra: rnd.randrange(1, 9), "hash_function": None}}
+
+
+@gen("HeavyHitters.frombytes")
+def _g_hh_frombytes(tier, rnd):
+    yield from _cms_sub_blobs(rnd, "num_hitters")
+
+
+@gen("StreamThreshold.frombytes")
+def _g_st_frombytes(tier, rnd):
+    yield from _cms_sub_blobs(rnd, "threshold")
+
+
 # ---- serialisation contracts: native cross-check of the stream / struct / hex models ---------------------------------------------
 CBF = "probables.blooms.countingbloom.CountingBloomFilter"
 EBF = "probables.blooms.expandingbloom.ExpandingBloomFilter"
